@@ -13,6 +13,7 @@ Where the specification leaves a choice open (several edges for the same case), 
 implementation has to match one of them.
 """
 import collections
+import os
 import json
 import random
 
@@ -136,17 +137,52 @@ def _matches(obs_ev, obs_state, ev, to):
     return None
 
 
-def run_graph(adapter, graph, max_cases=None, seed=0, stop_after=20):
+_PAR = {}
+
+
+def _par_worker(k):
+    adapter, graph, cases, procs, stop_after = _PAR["job"]
+    return _run_cases(adapter, graph, cases[k::procs], stop_after)
+
+
+def run_graph(adapter, graph, max_cases=None, seed=0, stop_after=20, procs=None):
     """Execute every case of the graph (or a seeded sample of max_cases) on the real code.
 
-    Returns (stats, mismatches)."""
+    Returns (stats, mismatches).  Large graphs are replayed by several forked worker processes
+    (every case builds its own fresh objects, so cases are independent); procs=1 forces one."""
     cases = list(graph.cases())
     total_cases = len(cases)
     if max_cases is not None and len(cases) > max_cases:
         rng = random.Random(seed)
         cases = rng.sample(cases, max_cases)
-    stats = collections.Counter()
+    if procs is None:
+        procs = 8 if len(cases) >= 4000 and os.environ.get("VERIF_REPLAY_PROCS", "") != "1" else 1
+    if procs > 1:
+        import multiprocessing
+
+        _PAR["job"] = (adapter, graph, cases, procs, stop_after)
+        try:
+            with multiprocessing.get_context("fork").Pool(procs) as pool:
+                parts = pool.map(_par_worker, range(procs))
+        finally:
+            _PAR.pop("job", None)
+        stats = collections.Counter()
+        by_op = collections.Counter()
+        mismatches = []
+        for st, mm in parts:
+            by_op.update(st.pop("by_op"))
+            stats.update(st)
+            mismatches += mm
+        stats["by_op"] = dict(by_op)
+        stats["cases_in_graph"] = total_cases
+        return stats, mismatches[: max(stop_after, 1)]
+    stats, mismatches = _run_cases(adapter, graph, cases, stop_after)
     stats["cases_in_graph"] = total_cases
+    return stats, mismatches
+
+
+def _run_cases(adapter, graph, cases, stop_after):
+    stats = collections.Counter()
     mismatches = []
     by_op = collections.Counter()
     for cf, ck, alts in cases:
